@@ -96,6 +96,14 @@ func c20Cases(tier string, seed uint64) []fw.Case {
 		c.Name = "many-generators/66000"
 		cs = append(cs, fw.MkCase("many-generators", &c))
 	}
+	// the same seen through the engine: a few instances on default generators stay alive while the program uses
+	// up its supply of generators; instances created afterwards (whatever their default generator is then) run at
+	// the same time as the early ones: instance ids and flow ids in the traces must not repeat
+	{
+		c := c20Case{Kind: "instances-after-exhaustion", G: 6, N: 70000}
+		c.Name = "instances-after-exhaustion/6"
+		cs = append(cs, fw.MkCase("instances-after-exhaustion", &c))
+	}
 	// one fallback generator drawn concurrently
 	for _, g := range []int{2, 4, 16, 32} {
 		c := c20Case{Kind: "fbconc", G: g, N: total / 5}
@@ -246,6 +254,140 @@ func c20Run(c *c20Case, env *fw.Env, v *fw.V) {
 		v.Add("ids", len(seen))
 		v.Add("generators-created", created)
 		v.Add("generators-refused", refused)
+	case "instances-after-exhaustion":
+		g := gen.Lower("p", gen.Seq(gen.T(), &gen.Block{Kind: "and", Default: -1, Kids: []*gen.Block{gen.T(), gen.T()}}))
+		defs, _, err := step.Parse(g)
+		if err != nil {
+			v.Inconclusive("parse", "%v", err)
+			return
+		}
+		perturb.Off()
+		element := &(*defs.Processes())[0]
+		type inst struct {
+			p      *bpmn.Process
+			traces chan tracing.ITrace
+			stop   context.CancelFunc
+		}
+		mk := func() (*inst, error) {
+			ictx, stop := context.WithCancel(ctx)
+			tr := tracing.NewTracer(ictx)
+			traces := tr.SubscribeChannel(make(chan tracing.ITrace, 1024))
+			p, err := bpmn.NewProcess(element, defs, bpmn.WithContext(ictx), bpmn.WithTracer(tr))
+			if err != nil {
+				stop()
+				return nil, err
+			}
+			return &inst{p: p, traces: traces, stop: stop}, nil
+		}
+		// run: start, answer every task, collect the instance id and the flow ids until the instance ceases
+		run := func(in *inst) ([]string, bool) {
+			ids := []string{in.p.Id().String()}
+			if err := in.p.StartAll(ctx); err != nil {
+				return ids, false
+			}
+			deadline := time.After(step.Watchdog)
+			for {
+				select {
+				case t := <-in.traces:
+					switch tr := tracing.Unwrap(t).(type) {
+					case bpmn.NewFlowTrace:
+						ids = append(ids, tr.FlowId.String())
+					case bpmn.TaskTrace:
+						tr.Do()
+					case bpmn.CeaseFlowTrace:
+						return ids, true
+					}
+				case <-deadline:
+					return ids, false
+				}
+			}
+		}
+		partition := func(x id.Id) (uint16, bool) {
+			if s, ok := x.(*id.SnoId); ok {
+				return s.Partition().AsUint16(), true
+			}
+			return 0, false
+		}
+		early := map[uint16]*inst{}
+		var order []uint16
+		for i := 0; i < c.G; i++ {
+			in, err := mk()
+			if err != nil {
+				v.Violate("new-process-error", "default-generator", "%v", err)
+				return
+			}
+			pt, ok := partition(in.p.Id())
+			if !ok {
+				v.Inconclusive("setup", "the program had no generators left at the start of the case")
+				return
+			}
+			early[pt] = in
+			order = append(order, pt)
+		}
+		// use up the program's supply
+		wtr := tracing.NewTracer(ctx)
+		used := 0
+		for ; used < c.N; used++ {
+			gctx, gstop := context.WithCancel(ctx)
+			_, err := id.GetSno().NewIdGenerator(gctx, wtr)
+			gstop()
+			if err != nil {
+				break
+			}
+		}
+		v.Add("generators-created", used)
+		pairs, compared := 0, 0
+		for i := 0; i < c.N && pairs < c.G && len(early) > 0; i++ {
+			late, err := mk()
+			if err != nil {
+				v.Violate("new-process-error", "default-generator", "after %d generators: %v", used+i, err)
+				return
+			}
+			var first *inst
+			if pt, ok := partition(late.p.Id()); ok {
+				// a generator of the same family as the early ones: only one on the same partition could repeat their ids
+				first = early[pt]
+				if first == nil {
+					late.stop()
+					continue
+				}
+				delete(early, pt)
+			} else {
+				// another kind of generator (the fallback): compare with the next early instance, once
+				for _, pt := range order {
+					if early[pt] != nil {
+						first = early[pt]
+						delete(early, pt)
+						break
+					}
+				}
+				pairs = c.G - 1
+			}
+			pairs++
+			var wg sync.WaitGroup
+			var a, b []string
+			var oka, okb bool
+			wg.Add(2)
+			go func() { defer wg.Done(); a, oka = run(first) }()
+			go func() { defer wg.Done(); b, okb = run(late) }()
+			wg.Wait()
+			first.stop()
+			late.stop()
+			if !oka || !okb {
+				v.Inconclusive("watchdog", "an instance did not complete (early %v, late %v)", oka, okb)
+				return
+			}
+			compared += len(a) + len(b)
+			if d, n := dupStrings(append(append([]string(nil), a...), b...)); n > 0 {
+				v.Violate("duplicate-id", "instances-after-exhaustion", "id %s (instance id or flow id) was issued to an instance created at the start of the program and to one created after %d further generators, both running at the same time", d, used+i)
+				return
+			}
+		}
+		for _, in := range early {
+			in.stop()
+		}
+		v.Add("ids", compared)
+		v.Add("pairs", pairs)
 	case "snapshot-live":
 		tr := tracing.NewTracer(ctx)
 		cfg := []byte(fmt.Sprintf(`{"partition":[201,7],"sequenceMin":0,"sequenceMax":%d}`, c.G))
